@@ -41,6 +41,8 @@ pub const MARKERS: &[MarkerInfo] = &[
     MarkerInfo { name: "m", regex: "[a-z]+", accept: &["abc", "z"], reject: &["1", ""] },
     MarkerInfo { name: "w", regex: "\\w+", accept: &["caf\u{e9}", "x1", "\u{664}2"], reject: &["-", "a-b"] },
     MarkerInfo { name: "d", regex: "\\d+", accept: &["12", "\u{664}"], reject: &["x", "1x"] },
+    // `\\d+` once more with ASCII values only: path templates stay inside the canonical-ASCII domain of the flat model
+    MarkerInfo { name: "dd", regex: "\\d+", accept: &["12", "7"], reject: &["x", "1x"] },
     MarkerInfo { name: "nd", regex: "\\D+", accept: &["ab", "x-y"], reject: &["1", "a1"] },
     MarkerInfo { name: "par", regex: "[)a-z]+", accept: &["foo", "a)b"], reject: &["1", "A"] },
     MarkerInfo { name: "opar", regex: "[(a-z]+", accept: &["foo", "a(b"], reject: &["1", "A"] },
@@ -191,7 +193,7 @@ pub const PATHS: &[(&str, Option<&str>)] = &[
     ("/foo", Some("a=@id")),
     ("/pets/@pet", None),
     ("/foo/@bad", None),
-    ("/n/@d", None),
+    ("/n/@dd", None),
     ("/n/@nd", None),
     ("/x/@par/a", None),
     ("/x/@par/b", None),
